@@ -386,6 +386,9 @@ func genOp(t *rapid.T, c *Cfg, p *genProfile, kinds []string, inGrp []bool) Op {
 			op.MaskSel = rapid.Uint64().Draw(t, "sel")
 		}
 		op.Race = p.park && rapid.IntRange(0, 2).Draw(t, "race") == 0
+		if rapid.IntRange(0, 5).Draw(t, "jump") == 0 {
+			op.Jump = rapid.SampledFrom([]int{250, 255, 256, 300, 600}).Draw(t, "jumpby")
+		}
 	case "gc":
 		op.Bucket = rapid.IntRange(0, 255).Draw(t, "bucket")
 		// ranges starting above file 0 matter (what lies below the range must stay consistent with it): not only -1/0
